@@ -394,7 +394,9 @@ def _flatten_chunk(rec, n, it, trial, summary):
     # substitute t := J - j0 and require independence from the chunk index
     v2 = subst_val(val, {tv: X.var(J) - j0})
     if iv in lm_fv(v2):
-        return rec
+        # after re-indexing by the global segment number the stored value still mentions the chunk: it is not a function of the segment alone
+        return (((J, hi),), (X.var(J),), Mismatch("the value stored for a segment depends on the chunk it is processed in (e.g. a mean taken over the chunk's "
+                                                    "segments instead of over the segment's own samples): the statistic changes with the chunk size"))
     summary.setdefault("chunked", []).append(J)
     return (((J, hi),), (X.var(J),), v2)
 
